@@ -39,6 +39,10 @@ def main():
                 scen = line.strip()
                 if scen.startswith('#') or not scen:
                     continue
+                if cur == 'C19':
+                    # build-specific options are added by the C19 runner per build, never stored
+                    import re as _re
+                    scen = _re.sub(r' (checks=1|copy=0)(?= )', '', scen)
                 cp = os.path.join(ROOT, 'corpus', cur + '.scen')
                 have = open(cp).read() if os.path.exists(cp) else ''
                 if scen not in have and n < 2 and len(scen) < 2000:
